@@ -6,14 +6,13 @@
    on tokens) and blank-splitting for shellquote.Split on a line without quotes.  Each is tied to
    the implementation by the correspondence check of this property and of C06 / C14.
 
-   Proved: the full round trip for every syscall rule (-a / -A line) the Build model accepts, whether
-   ToCommandLine prints it in the -a form or, having exactly the shape of a watch, in the -w form.
-   Not proved: rules entered as file watches (-w lines) are decided on every generated rule by the
-   checker chk_C07 and the correspondence. *)
+   Proved (C07_round_trip): the full round trip for every parsed line the Build model accepts within the
+   property's domain - syscall rules (-a / -A lines) and file watches (-w lines), whether ToCommandLine
+   prints the rule in the -a form or, having exactly the shape of a watch, in the -w form. *)
 From Coq Require Import List Ascii String NArith ZArith Bool.
 Import ListNotations.
 Require Import Bytes Mach RuleTables RuleDecode Mask RuleEncode RuleText RuleValue FilterRe Flags RuleBuild.
-Require Import RuleWire RuleSpecWf RuleReprint RuleFlagsBack RuleFieldsBack RuleRoundTrip RuleWatchBack RuleTextSplit RuleDecodeBack RuleValueProofs RuleMaskText.
+Require Import RuleWire RuleSpecWf RuleReprint RuleFlagsBack RuleFieldsBack RuleRoundTrip RuleWatchBack RuleWatchLine RuleTextSplit RuleDecodeBack RuleValueProofs RuleMaskText.
 Open Scope N_scope.
 
 (* the wire layer alone *)
@@ -79,6 +78,71 @@ Proof.
   split; [exact Ht|]. split; [exact Hr|]. rewrite Hr. reflexivity.
 Qed.
 
+(* ---------- every rule ---------- *)
+(* the property's domain on a parsed line *)
+Definition in_domain (stat : str -> bool) (p : prule) (d : wiredata) : Prop :=
+  match p with
+  | PSyscall _ li ac fs scs keys => Forall filter_ok fs /\ keys_ok keys
+  | PWatch path perms keys => forallb is_perm perms = true /\ clean (clean_rooted path) = true /\ keys_ok keys
+  | PDelete _ => True
+  end /\
+  not_finding_103 d /\
+  (* for a rule printed with -w: the filesystem agrees with path= / dir=, and trimming leaves the key alone *)
+  (watch_items (w_flags d) (w_action d) (w_mask d) (w_triples d) (w_strings d) <> None ->
+   (match p with PWatch _ _ _ => True | _ => fs_agrees stat d end) /\ key_trim_stable d).
+
+Lemma perm_letters_clean perms : forallb is_perm perms = true -> perms <> [] -> clean perms = true.
+Proof.
+  intros Hp Hne. unfold clean. destruct perms as [|c r]; [contradiction|]. cbn [List.length Nat.eqb negb andb].
+  rewrite forallb_forall in *. intros x Hx. specialize (Hp x Hx). unfold is_perm, is, beq, Flags.l in Hp. cbn in Hp. repeat rewrite andb_true_r in Hp.
+  destruct (Ascii.eqb x "r") eqn:E1; [apply Ascii.eqb_eq in E1; subst; reflexivity|].
+  destruct (Ascii.eqb x "w") eqn:E2; [apply Ascii.eqb_eq in E2; subst; reflexivity|].
+  destruct (Ascii.eqb x "x") eqn:E3; [apply Ascii.eqb_eq in E3; subst; reflexivity|].
+  destruct (Ascii.eqb x "a") eqn:E4; [apply Ascii.eqb_eq in E4; subst; reflexivity|]. discriminate.
+Qed.
+
+Theorem C07_round_trip (stat : str -> bool) (p : prule) (d : wiredata) :
+  build_prule stat p = Some d -> in_domain stat p d ->
+  exists text,
+    text_of_wire (to_wire d) = Some text /\ rebuild stat text = Some d /\ option_map to_wire (rebuild stat text) = Some (to_wire d).
+Proof.
+  intros Hb (Hdom & H103 & Hwf).
+  destruct p as [ks|path perms keys|pre li ac fs scs keys]; [discriminate| |].
+  - (* a -w line *)
+    destruct Hdom as (Hperm & Hcl & Hk). cbn [build_prule] in Hb. destruct path as [|c0 pr]; [discriminate|].
+    destruct (is_abs (c0 :: pr)); [|discriminate]. set (path' := clean_rooted (c0 :: pr)) in *.
+    assert (Hne: path' <> []) by (unfold path', clean_rooted; discriminate).
+    destruct (watch_line_as_syscall_rule _ _ _ _ _ Hb Hperm Hne) as (s & Hspec & Hdata).
+    assert (Hfok: Forall filter_ok (watch_filters path' (stat path') perms)).
+    { unfold watch_filters. constructor; [|constructor; [|constructor]].
+      - hnf. intros _. split; auto.
+      - hnf. intros _.
+        assert (Hc: clean (watch_perm_text perms) = true).
+        { unfold watch_perm_text. destruct perms as [|p0 prs]; [reflexivity|]. apply perm_letters_clean; [exact Hperm|discriminate]. }
+        split; auto. unfold clean in Hc. destruct (watch_perm_text perms); [discriminate|reflexivity]. }
+    destruct (watch_items (w_flags d) (w_action d) (w_mask d) (w_triples d) (w_strings d)) as [its|] eqn:Ew.
+    + destruct (Hwf ltac:(discriminate)) as [_ Htrim].
+      assert (Hfs: fs_agrees stat d).
+      { unfold data_of_watch in Hb. destruct (lookupS (s2l "=") operators_table); [|discriminate].
+        destruct (lookupS (s2l (if stat path' then "dir" else "path")) fields_table) as [pf|] eqn:Epf; [|discriminate].
+        destruct (lookupS (s2l "perm") fields_table); [|discriminate]. destruct (path_max <? _); [discriminate|].
+        destruct (add_keys _ keys) as [[ts ss]|] eqn:Ek; [|discriminate]. injection Hb as <-. unfold fs_agrees. cbn [w_triples w_strings].
+        assert (Hts: exists r1 r2, ts = (pf, n, N.of_nat (List.length path')) :: r1 /\ ss = path' :: r2).
+        { unfold add_keys in Ek. destruct keys; [injection Ek as <- <-; eauto|].
+          destruct (_ =? 0)%nat; [discriminate|]. destruct (max_key_length <? _); [discriminate|]. destruct (lookupS (s2l "=") operators_table); [|discriminate].
+          injection Ek as <- <-. cbn [fst snd app]. eauto. }
+        destruct Hts as (r1 & r2 & -> & ->). destruct perm_code as (_ & _ & _ & _ & _ & Hp1 & Hp2).
+        destruct (stat path'); [rewrite Hp2 in Epf|rewrite Hp1 in Epf]; injection Epf as <-; reflexivity. }
+      exact (C07_round_trip_w_form stat _ _ _ _ _ _ _ _ Hspec Hdata Hfok Hk H103 Ew Hfs Htrim).
+    + exact (C07_round_trip_a_form stat _ _ _ _ _ _ _ Hspec Hdata Hfok Hk H103 Ew).
+  - (* a -a / -A line *)
+    destruct Hdom as (Hfok & Hk). cbn [build_prule] in Hb. destruct (spec_of_prule li ac fs scs keys) as [s|] eqn:Hspec; [|discriminate].
+    destruct (watch_items (w_flags d) (w_action d) (w_mask d) (w_triples d) (w_strings d)) as [its|] eqn:Ew.
+    + destruct (Hwf ltac:(discriminate)) as [Hfs Htrim].
+      exact (C07_round_trip_w_form stat _ _ _ _ _ _ _ _ Hspec Hb Hfok Hk H103 Ew Hfs Htrim).
+    + exact (C07_round_trip_a_form stat _ _ _ _ _ _ _ Hspec Hb Hfok Hk H103 Ew).
+Qed.
+
 (* the value codecs on their own: whatever ToCommandLine prints after the operator is read back as the value *)
 Theorem C07_values_read_back f v t : f <> 111 -> value_in_range f v -> print_value f v = Some t -> parse_value f t = VOk v.
 Proof. exact (value_round_trip f v t). Qed.
@@ -90,6 +154,7 @@ Proof. exact (mask_of_listed_syscalls m). Qed.
 Print Assumptions C07_wire_roundtrip.
 Print Assumptions C07_round_trip_a_form.
 Print Assumptions C07_round_trip_w_form.
+Print Assumptions C07_round_trip.
 Print Assumptions C07_values_read_back.
 Print Assumptions C07_mask_read_back.
 
